@@ -6,15 +6,15 @@ package main
 // (spec/Goalign.tla) is the only judge of the events; nothing is compared here.
 
 import (
-	"github.com/evolbioinfo/goalign/io/partition"
-	"strings"
 	"encoding/json"
 	"fmt"
+	"github.com/evolbioinfo/goalign/io/partition"
 	"math"
 	"math/rand"
 	"regexp"
 	"sort"
 	"strconv"
+	"strings"
 
 	"github.com/evolbioinfo/goalign/align"
 )
@@ -628,31 +628,9 @@ func (h *heapRun) apply(st Step, ret map[string]interface{}) error {
 	case "Split":
 		if ab(a, "text") {
 			// the same ranges written as a partition file and read back by the real partition parser
-			var sbuf strings.Builder
-			prev := -999999
-			for _, x := range alist(a, "ranges") {
-				r := x.(map[string]interface{})
-				if ai(r, "p") != prev {
-					if prev != -999999 {
-						sbuf.WriteString("\n")
-					}
-					fmt.Fprintf(&sbuf, "M, p%d = ", ai(r, "p"))
-					prev = ai(r, "p")
-				} else {
-					sbuf.WriteString(", ")
-				}
-				if ai(r, "s") == ai(r, "e") && ai(r, "m") == 1 {
-					fmt.Fprintf(&sbuf, "%d", ai(r, "s")+1)
-				} else {
-					fmt.Fprintf(&sbuf, "%d-%d", ai(r, "s")+1, ai(r, "e")+1)
-				}
-				if ai(r, "m") != 1 {
-					fmt.Fprintf(&sbuf, "/%d", ai(r, "m"))
-				}
-			}
-			sbuf.WriteString("\n")
-			ret["text"] = sbuf.String()
-			ps, err := partition.NewParser(strings.NewReader(sbuf.String())).Parse(ai(a, "plen"))
+			text, _ := partitionText(a)
+			ret["text"] = text
+			ps, err := partition.NewParser(strings.NewReader(text)).Parse(ai(a, "plen"))
 			if err != nil {
 				ret["stage"] = "addrange"
 				return err
@@ -734,6 +712,41 @@ func (h *heapRun) apply(st Step, ret map[string]interface{}) error {
 		panic(harnessPanic("harness: unknown op " + st.Op))
 	}
 	return nil
+}
+
+// partitionText writes the ranges of a Split step as a partition file (one line per run of ranges of the same
+// partition) and lists the partition names in order of first appearance.
+func partitionText(a map[string]interface{}) (string, []string) {
+	var sbuf strings.Builder
+	names := []string{}
+	seen := map[int]bool{}
+	prev := -999999
+	for _, x := range alist(a, "ranges") {
+		r := x.(map[string]interface{})
+		if !seen[ai(r, "p")] {
+			seen[ai(r, "p")] = true
+			names = append(names, fmt.Sprintf("p%d", ai(r, "p")))
+		}
+		if ai(r, "p") != prev {
+			if prev != -999999 {
+				sbuf.WriteString("\n")
+			}
+			fmt.Fprintf(&sbuf, "M, p%d = ", ai(r, "p"))
+			prev = ai(r, "p")
+		} else {
+			sbuf.WriteString(", ")
+		}
+		if ai(r, "s") == ai(r, "e") && ai(r, "m") == 1 {
+			fmt.Fprintf(&sbuf, "%d", ai(r, "s")+1)
+		} else {
+			fmt.Fprintf(&sbuf, "%d-%d", ai(r, "s")+1, ai(r, "e")+1)
+		}
+		if ai(r, "m") != 1 {
+			fmt.Fprintf(&sbuf, "/%d", ai(r, "m"))
+		}
+	}
+	sbuf.WriteString("\n")
+	return sbuf.String(), names
 }
 
 func astrs(a map[string]interface{}, k string) string {
